@@ -1098,7 +1098,7 @@ PROPS = {
              " One session in three carries an end-to-end Authorization header on every request (valid credentials of a configured client, a Bearer token, other Basic credentials): it never passes the gate and never spoils a connection accepted by its SNI"
              " One session in four carries a header that only begins like a ping marker (x-ping: 10 / 1.0 / 11 / `1, 1`; sec-fetch-mode: navigate-nested, ...): it is a tunnel request like any other and goes through the gate",
         explanation="theorems gate_sound, policy_authenticated_only_if_accepted, registry_accepts_iff, reject_is_407_no_egress, "
-                    "egress_only_after_pass, registry_no_egress_without_credentials, decision_history_independent about TT/Model/Dispatch.lean",
+                    "egress_only_after_pass, registry_no_egress_without_credentials, decision_history_independent, configured_client_passes, wrong_token_rejected_on_authenticated_connection about TT/Model/Dispatch.lean",
         trusted=["HTTP/3 is driven live (a sample of sessions over real QUIC on loopback): quiche on both sides is trusted, and timing there is the wall clock",
                  "header parsing by httparse / h2 / http crates (first Proxy-Authorization value, OWS trimming on HTTP/1.1)",
                  "a scripted authenticator stands for 'the configured authenticator'; the registry is the real RegistryBasedAuthenticator"],
